@@ -46,6 +46,9 @@ def run(ctx):
             elif r < 0.19:
                 aimed += lookups.grow_edit(base_h, rng)
                 ctx.count("grow_through_initialized_size")
+            elif r < 0.25:
+                aimed += lookups.edit_move_edit(base_h, rng)
+                ctx.count("edit_move_edit_batches")
             else:
                 lookups.edit_step(base_h, rng, WEIGHTS)
         if rng.random() < 0.5:
@@ -58,7 +61,7 @@ def run(ctx):
         # fixed battery drawn from the final state (plus the lookups aimed at parts that grew through initialized_size)
         n0 = len(base_h.items)
         lookups.battery(base_h, rng, METHODS, 40)
-        battery = base_h.items[n0:] + aimed[-16:]
+        battery = base_h.items[n0:] + aimed[-40:]
         schedules = {
             "none": lambda i: 0,
             "every": lambda i: 1,
